@@ -6,9 +6,10 @@ COMPONENTS = ["loadstore"]
 T4 = []
 PROOF_MODULES = ["GrpcProofs.Properties.C50"]
 THEOREMS = ["GrpcProofs.C50." + t for t in (
-    "conservation", "conservation_total_drops", "conservation_quiescent", "events_all_applied",
+    "conservation", "conservation_load_sum", "conservation_total_drops", "events_all_applied",
+    "conservation_quiescent", "conservation_total_drops_quiescent",
     "in_progress_is_value_at_some_instant_within_snapshot", "in_progress_counter_is_started_minus_finished",
-    "abandoned_zero_of_wellformed")]
+    "in_progress_counter_bounds", "abandoned_zero_of_wellformed")]
 DESIGN_REF = "DESIGN.md section 8, C50"
 TECHNIQUE = ("Lean 4 inductive invariants over an interleaving model (one rule per atomic access / critical section / sync.Map "
              "Range choice of load_store.go, any number of goroutines); tie T3 (the real PerClusterReporter stepped one atomic "
